@@ -72,23 +72,35 @@ def _child(fn, block, wfd):
         os._exit(code)
 
 
-def parallel_blocks(fn, blocks, workers, block_timeout, deadline=None):
+def parallel_blocks(fn, blocks, workers, block_timeout, deadline=None,
+                    issued=None):
     """Run fn(block) for each block in forked, short-lived children (at most
     `workers` at a time).  Yields (index, status, payload) in completion order;
     status in 'ok' | 'err' | 'dead' | 'timeout' | 'skipped'."""
     sel = selectors.DefaultSelector()
-    pending = list(enumerate(blocks))
-    pending.reverse()
+    # blocks are drawn from the iterator one at a time: building all of them
+    # first costs minutes for the thorough tiers (and a parent process with
+    # gigabytes of case dicts forks slowly); what is not issued before the
+    # deadline is left in the iterator for the caller to count
+    it = iter(blocks)
+    n_issued = 0
+    exhausted = False
     live = {}   # rfd -> [idx, pid, buf, t0]
     results = []
-    while pending or live:
-        while pending and len(live) < workers:
+    while not exhausted or live:
+        while not exhausted and len(live) < workers:
             if deadline is not None and time.time() > deadline:
-                for idx, _ in pending:
-                    results.append((idx, 'skipped', None))
-                pending = []
+                exhausted = True
                 break
-            idx, block = pending.pop()
+            try:
+                block = next(it)
+            except StopIteration:
+                exhausted = True
+                break
+            idx = n_issued
+            n_issued += 1
+            if issued is not None:
+                issued[idx] = block
             rfd, wfd = os.pipe()
             sys.stdout.flush()
             sys.stderr.flush()
@@ -254,20 +266,24 @@ def run_check(prop, tier, verif_seed, workers=None, budget_s=None,
             out.append(r)
         return out
 
-    blocks = list(chunked(cases, block_size))
+    block_iter = chunked(cases, block_size)
+    blocks = {}         # idx -> block, for the blocks that were issued
     agg = Aggregate(prop)
     harness_errors = []
     viol_cases = {}     # sig -> (case, violation, block idx, pos)
     by_block = {}
-    for idx, st, payload in parallel_blocks(work, blocks, workers,
-                              getattr(prop, 'BLOCK_TIMEOUT', 600), deadline):
+    for idx, st, payload in parallel_blocks(work, block_iter, workers,
+                              getattr(prop, 'BLOCK_TIMEOUT', 600), deadline,
+                              issued=blocks):
         by_block[idx] = (st, payload)
-    skipped = 0
+    # what the budget did not reach
+    n_total = getattr(prop, 'N_CASES', {}).get(tier)
+    if n_total is not None and not getattr(prop, 'N_CASES_IGNORE', False):
+        skipped = max(0, n_total - sum(len(b) for b in blocks.values()))
+    else:
+        skipped = sum(len(b) for b in block_iter)
     for idx in sorted(by_block):
         st, payload = by_block[idx]
-        if st == 'skipped':
-            skipped += len(blocks[idx])
-            continue
         if st != 'ok':
             harness_errors.append('block %d: %s %s' % (idx, st,
                                                   (payload or '')[-1500:]))
